@@ -16,9 +16,9 @@ LEVEL = "exploration"
 RULE = (
     "EXHAUSTIVE product, each case built through real traffic on a real endpoint: state in {acceptor just connected, initiator "
     "connected before its Logon, initiator after sending Logon, the same three states on the second connection of an object that "
-    "already had a session (the client having been logged on by the peer first), ACTIVE x2 roles, RESENDREQ_AWAITING x2 roles} x inbound class in "
+    "already had a session (the client having been logged on by the peer first), ACTIVE x2 roles (also with ten-digit counters beyond 2^31), RESENDREQ_AWAITING x2 roles} x inbound class in "
     "{Logon, Logout, Heartbeat, TestRequest, ResendRequest, GapFill, Reset, Reject, application} x defect in {none, wrong "
-    "BeginString (FIX.4.2, FIX.4.4x, FIX.4.40, FIX.4.4.1, FIX.5.0, FIXT.1.1), SenderCompID missing / wrong / empty / padded with a blank / other case / one character longer / one character shorter, TargetCompID missing / wrong / padded with a tab / one character shorter, CompIDs swapped, MsgSeqNum missing, number below / "
+    "BeginString (FIX.4.2, FIX.4.4x, FIX.4.40, FIX.4.4.1, FIX.5.0, FIXT.1.1), SenderCompID missing / wrong / empty / padded with a blank / other case / one character longer / one character shorter, TargetCompID missing / wrong / padded with a tab / one character shorter, CompIDs swapped, MsgSeqNum missing, number below (also zero-padded wider than the expected number, and with fewer digits than it) / "
     "at / above the expected one}; then send attempts of every message class (application, Heartbeat, TestRequest, Logon, Logout, "
     "ResendRequest, Reject, SequenceReset), also in the three disconnected states; after every disconnect Hypothesis-drawn further "
     "input (valid frames, garbage, EOF) and virtual time. Oracle: pre-logon a non-Logon frame is never delivered nor acted upon and "
@@ -38,9 +38,11 @@ STATES = ["acc-connected", "init-connected", "init-logon-sent", "acc-active", "i
           "acc2-connected", "init2-connected", "init2-logon-sent",
           # ACTIVE on the second connection of an object whose first session was ended by the endpoint itself with a
           # Logout stating a reason (too-low MsgSeqNum)
-          "acc2-active", "init2-active"]
+          "acc2-active", "init2-active",
+          # long-lived sessions with ten-digit counters
+          "acc-active@big", "init-active@big"]
 CLASSES = ["A", "5", "0", "1", "2", "GF", "RS", "3", "D"]
-DEFECTS = ["none", "begin", "begin:FIX.4.4x", "begin:FIX.4.40", "begin:FIX.4.4.1", "begin:FIX.5.0", "begin:FIXT.1.1", "sender-missing", "sender-wrong", "sender-padded", "sender-case", "sender-longer", "sender-prefix", "sender-empty", "target-missing", "target-wrong", "target-padded", "target-prefix", "swapped", "seq-missing", "seq-low", "seq-at", "seq-high"]
+DEFECTS = ["none", "begin", "begin:FIX.4.4x", "begin:FIX.4.40", "begin:FIX.4.4.1", "begin:FIX.5.0", "begin:FIXT.1.1", "sender-missing", "sender-wrong", "sender-padded", "sender-case", "sender-longer", "sender-prefix", "sender-empty", "target-missing", "target-wrong", "target-padded", "target-prefix", "swapped", "seq-missing", "seq-low", "seq-low-padded", "seq-low-fewer-digits", "seq-at", "seq-high"]
 SENDS = ["D", "0", "1", "A", "5", "2", "3", "4"]
 PRE = {"acc-connected", "init-connected", "init-logon-sent", "acc2-connected", "init2-connected", "init2-logon-sent"}
 
@@ -67,8 +69,11 @@ def make_bench(state):
         return b
     if state.startswith(("acc2", "init2")):
         return second_connection(state)
+    if state.endswith("@big"):
+        # a long-lived session: ten-digit counters (beyond 2^31)
+        return Bench(role, "active", next_in=2**31 + 5, next_out=2**31 + 1)
     start = {"connected": "connected", "logon-sent": "connected", "active": "active", "awaiting": "awaiting-mid"}[state.split("-", 1)[1]]
-    return Bench(role, start, next_in=4, next_out=4)
+    return Bench(role, start, next_in=14, next_out=4)
 
 
 class SetupViolation(Exception):
@@ -151,7 +156,9 @@ def body_for(cls, uid, E):
 def build_frame(b, cls, defect, E, uid):
     mt, fields = body_for(cls, uid, E)
     sender, target = b.peer, b.me
-    seq = {"seq-low": max(E - 1, 1), "seq-high": E + 2}.get(defect, E)
+    seq = {"seq-low": max(E - 1, 1), "seq-high": E + 2,
+           "seq-low-padded": "%0*d" % (len(str(E)) + 2, max(E - 1, 1)),  # too low, written zero-padded wider than the expected number
+           "seq-low-fewer-digits": max(10 ** (len(str(E)) - 1) - 1, 1)}.get(defect, E)  # too low with fewer digits (9 vs 14, 999999999 vs 2^31)
     hdr = [(49, sender), (56, target), (34, seq), (52, "20230101-00:00:00.000")]
     if defect == "sender-missing":
         hdr = [h for h in hdr if h[0] != 49]
@@ -284,14 +291,15 @@ def one_case(acc, state, cls, defect, extra=(), uid=1):
         ep = b.ep
         exp_state = {"acc2-connected": "NETWORK_CONN_ESTABLISHED", "init2-connected": "NETWORK_CONN_ESTABLISHED", "init2-logon-sent": "LOGON_INITIAL_SENT",
                      "acc-connected": "NETWORK_CONN_ESTABLISHED", "init-connected": "NETWORK_CONN_ESTABLISHED", "init-logon-sent": "LOGON_INITIAL_SENT",
-                     "acc-active": "ACTIVE", "init-active": "ACTIVE", "acc2-active": "ACTIVE", "init2-active": "ACTIVE", "acc-awaiting": "RESENDREQ_AWAITING", "init-awaiting": "RESENDREQ_AWAITING"}[state]
+                     "acc-active": "ACTIVE", "init-active": "ACTIVE", "acc2-active": "ACTIVE", "init2-active": "ACTIVE", "acc-awaiting": "RESENDREQ_AWAITING", "init-awaiting": "RESENDREQ_AWAITING",
+                     "acc-active@big": "ACTIVE", "init-active@big": "ACTIVE"}[state]
         if ep.connection_state.name != exp_state:
             bad("setup/state-not-reached", f"clean traffic led to {ep.connection_state.name}, expected {exp_state}")
             return
         E = ep._session.next_num_in
         pre = state in PRE
         ep.send_on_active = True  # the application answers "ACTIVE" by sending at once, from inside on_state_change
-        if defect == "seq-low" and E < 2:
+        if defect.startswith("seq-low") and E < 2:
             return
         fr = build_frame(b, cls, defect, E, uid)
         s0 = snapshot(b)
@@ -302,7 +310,7 @@ def one_case(acc, state, cls, defect, extra=(), uid=1):
         evs = [e[0] for e in b.events()]
         disc_now = b.disconnected()
         seqreset = cls in ("GF", "RS")
-        compid_defect = defect in ("sender-missing", "sender-wrong", "target-missing", "target-wrong", "swapped") or defect.split("-")[-1] in ("padded", "case", "longer", "prefix", "empty")
+        compid_defect = defect in ("sender-missing", "sender-wrong", "target-missing", "target-wrong", "swapped") or (defect.startswith(("sender-", "target-")) and defect.split("-")[-1] in ("padded", "case", "longer", "prefix", "empty"))
 
         def expect_dropped(reason, logout_required):
             if s1["msgs"] != s0["msgs"]:
@@ -342,14 +350,14 @@ def one_case(acc, state, cls, defect, extra=(), uid=1):
                 pass  # FREE
             elif compid_defect or defect == "seq-missing":
                 expect_dropped("pre-logon-" + defect, defect == "seq-missing")
-            elif defect == "seq-low":
-                expect_dropped("pre-logon-seq-low", True)
+            elif defect in ("seq-low", "seq-low-padded", "seq-low-fewer-digits"):
+                expect_dropped("pre-logon-" + defect, True)
         else:  # logged on
             if compid_defect:
                 expect_dropped(defect, False)
             elif defect == "seq-missing":
                 expect_dropped(defect, True)
-            elif defect == "seq-low" and not seqreset and "awaiting" not in state:
+            elif defect in ("seq-low", "seq-low-padded", "seq-low-fewer-digits") and not seqreset and "awaiting" not in state:
                 expect_dropped(defect, True)
         # whatever the application sends when it is told "ACTIVE" must not overtake this endpoint's own Logon: a frame
         # other than Logon / Logout before the own Logon is a send before the Logon exchange has completed
